@@ -18,6 +18,7 @@ struct Ctx : EntityTermContext {
     terms.emplace("X2", LexicalTerm(std::string{}));
     LexicalTerm t3("t3"); t3.SetForm(Morphology{ Grammem::sing, Grammem::datv }, vh::Utf8({ 1083, 1102, 1076, 1103, 1084 }));
     terms.emplace("X3", std::move(t3));
+    terms.emplace("X4", LexicalTerm(vh::Utf8({ 97, 98, 99, 100, 101, 102, 103, 104, 105, 233 })));
   }
   const LexicalTerm* At(const std::string& e) const override { auto it = terms.find(e); return it == terms.end() ? nullptr : &it->second; }
   bool Contains(const std::string& e) const override { return terms.count(e) > 0; }
@@ -121,7 +122,10 @@ static void MgrCase(const json& c, vh::Report& r) {
   for (auto& op : c["hist"]) {
     ++step;
     const json before = RangesJ(m);
-    if (op["op"] == "Insert") {
+    if (op["op"] == "Resolve") {
+      txt = vh::CodePoints(m.Resolve(U(op["cps"])));
+      if (RangesJ(m) != op["ranges"]) fail("Resolve.reused-manager", { {"step", step}, {"got", RangesJ(m)}, {"expected", op["ranges"]} });
+    } else if (op["op"] == "Insert") {
       const int pos = op["a"].get<int>();
       auto ref = Reference::Parse(op["b"].get<int>() == 22 ? "@{X1|nomn}" : "@{X3|datv,sing}");
       const Reference* ins = m.Insert(ref, pos);
@@ -161,21 +165,21 @@ static int Record(const vh::Args& args) {
   std::ofstream out(args.get("trace"));
   vh::Report rep;
   static const char* macros[] = { "@{X1|nomn}", "@{X3|datv,sing}", "@{X9|plur}", "@{X2|nomn}", "@{1|dep}", "@{-1|d\xC3\xA9p}", "@{2|d}", "@{0|d}",
-    "@{X1|nomn|sing}", "@{X1|nomn|1}", "@{X11|gent,plur}", "@{1|}", "@{X1|zzzz}", "@{-2|x y}", "@@{X1|nomn}", "@{X1|nomn|}", "@{99999999999|a}", "@{X3| sing , datv }",
+    "@{X1|nomn|sing}", "@{X1|nomn|1}", "@{X11|gent,plur}", "@{1|}", "@{X1|zzzz}", "@{-2|x y}", "@@{X1|nomn}", "@{X1|nomn|}", "@{99999999999|a}", "@{X3| sing , datv }", "@{X4|nomn}",
     "a", " ", "\xC3\xA9", "\xE2\x84\xAC", "\xF0\xA0\x9C\x8E", "@", "{", "}", "|", "X1", ",", "word " };
   const int nm = sizeof(macros) / sizeof(macros[0]);
   long events = 0;
+  RefsManager m(TheCtx());          // one long-lived manager: nothing of an earlier text may survive a Resolve
   for (long i = 0; i < n; ++i) {
-    std::string text; int atoms = 3 + static_cast<int>(g() % 24);
-    for (int k = 0; k < atoms; ++k) { int a = static_cast<int>(g() % nm); if (a >= 23 && a <= 26 && g() % 4) a = 18; text += macros[a]; }
-    RefsManager m(TheCtx());
+    std::string text; int atoms = (g() % 5 == 0) ? static_cast<int>(g() % 3) : 3 + static_cast<int>(g() % 24);
+    for (int k = 0; k < atoms; ++k) { int a = static_cast<int>(g() % nm); if (a >= 24 && a <= 27 && g() % 4) a = 19; text += macros[a]; }
     const auto refs = Reference::ExtractAll(text);
     const std::string resolved = m.Resolve(text);
     json rj = json::array();
     for (size_t k = 0; k < refs.size(); ++k) { json j = RefJ(refs[k]); j.erase("res"); j["spell"] = CP(refs[k].ToString());
       if (k < m.get().size()) { j["res"] = CP(m.get()[k].resolvedText); j["rs"] = m.get()[k].position.start; j["rf"] = m.get()[k].position.finish; } rj.push_back(j); }
     json refl = json::array(); for (auto& e : ManagedText(text).Referals()) refl.push_back(CP(e));
-    out << json{ {"e", "Text"}, {"cps", CP(text)}, {"refs", rj}, {"resolved", CP(resolved)}, {"back", CP(m.OutputRefs(resolved))}, {"referals", refl} }.dump() << std::endl; ++events;
+    out << json{ {"e", "Text"}, {"cps", CP(text)}, {"refs", rj}, {"resolved", CP(resolved)}, {"back", CP(m.OutputRefs(resolved))}, {"referals", refl}, {"nrefs", m.get().size()} }.dump() << std::endl; ++events;
     // a few range operations on the same manager
     auto txt = vh::CodePoints(resolved);
     for (int k = 0; k < 6; ++k) {
